@@ -144,23 +144,26 @@ def fPure : Option (Option (List (List BF) × List (List BF))) → String
   | none => ""
 
 /-  second request kind: the DataField cache of a TrialDataManager
-      field <reset 0/1> <table d:s:p:v1,v2,…;…> <d0> <s0> <ops ;-separated  N<d> | R | S<s> | C<p>>
+      field <reset 0/1> <table d:s:p1,p2,…:v1,v2,…;…> <d0> <s0> <ops ;-separated  N<d> | R | S<s> | C<p1,p2,…>>
+    (the key of the field is the tuple of the values of ALL global fit parameters it depends on)
     answer ;-separated  U | <recomputed 0/1>:<v1,v2,…>                                                   -/
-def fTab (s : String) : List ((Nat × Nat × UInt64) × List Float) :=
+def pKey (s : String) : List UInt64 := pList (fun t => (pF t).toBits) s
+
+def fTab (s : String) : List ((Nat × Nat × List UInt64) × List Float) :=
   (entries s).filterMap fun
-    | [d, sr, p, vs] => some ((pN d, pN sr, (pF p).toBits), pList pF vs)
+    | [d, sr, p, vs] => some ((pN d, pN sr, pKey p), pList pF vs)
     | _ => none
 
-def pFieldOp (s : String) : Option (FieldOp Nat Nat UInt64) :=
+def pFieldOp (s : String) : Option (FieldOp Nat Nat (List UInt64)) :=
   if s.startsWith "N" then some (.initNew (pN (s.drop 1).toString))
   else if s == "R" then some .initSame
   else if s.startsWith "S" then some (.changeSource (pN (s.drop 1).toString))
-  else if s.startsWith "C" then some (.compute (pF (s.drop 1).toString).toBits)
+  else if s.startsWith "C" then some (.compute (pKey (s.drop 1).toString))
   else none
 
 /-- run with the "was recomputed" flag made visible: recomputed ⇔ the remembered key changed or was set -/
-def fieldTrace (f : Nat → Nat → UInt64 → List Float) (reset : Bool) :
-    FieldSt Nat Nat UInt64 (List Float) → List (FieldOp Nat Nat UInt64) → List String
+def fieldTrace (f : Nat → Nat → List UInt64 → List Float) (reset : Bool) :
+    FieldSt Nat Nat (List UInt64) (List Float) → List (FieldOp Nat Nat (List UInt64)) → List String
   | _, [] => []
   | st, op :: ops =>
     let r := fieldStep f reset st op
